@@ -1,10 +1,258 @@
 import CG.Model.Stepping
+import CG.Proofs.Stepping
 /-!
 # C17 — Stepping a script through the debugger interface preserves its meaning
-Property theorems only (model: `CG.Model.Interp` + `CG.Model.Stepping`).
+Property theorems only (model: `CG.Model.Interp` + `CG.Model.Stepping`; lemmas: `CG.Proofs.Stepping`).
+
+Vocabulary (all defined in `CG.Proofs.Stepping`):
+* `Reaches script i p` — `p` is reached from `i` by walking over whole instructions with `next_op`;
+* `Executes ex script i st q` — the unbroken loop started at offset `i` in state `st` gets to execute
+  the opcode at offset `q` (skipped conditional branches are not executed);
+* `stopWith` — `core_eval`'s loop without the "ENDIF missing" check that follows it, i.e. the state
+  and offset with which the loop is left (`runWith_eq_stop`: the model's loop is `stopWith` + that check);
+* `Checker.IgnoresScript C` — `check_sig`'s answer and new checker state do not depend on the script
+  argument (the only consumer of `check_index`, the one piece of state the interface cannot carry).
+
+Every theorem is for all scripts, flag words, hash functions, checkers, initial stacks and — for the
+split theorems — every list of break offsets (any number of segments).
 -/
 namespace CG.Props.C17
-open CG CG.Model.Interp CG.Model.Stepping
+open CG CG.Model.Interp CG.Model.Stepping CG.Model.ScriptNum CG.Proofs.Stepping
+
+/-! ### 1. breaking at or beyond the end is the same as not breaking -/
+
+/-- where a run without (effective) break stops: at `start` when there is nothing to run, else at the
+    end of the script, else at an OP_RETURN executed under genesis rules -/
+def StopsAt (script : Bytes) (flags start p : Nat) : Prop :=
+  (script.length ≤ start ∧ p = start) ∨
+  (start < script.length ∧ p = script.length) ∨
+  (start < script.length ∧ p < script.length ∧ Reaches script start p ∧
+    script.getD p 0 = 0x6a ∧ flags % 2 ≠ 1)
+
+/-- **break ≥ length ≡ no break.**  For every start offset and initial stacks, `core_eval` with a
+    break offset at or beyond the end returns exactly what it returns without a break — same stacks,
+    same checker state, same error, same panic — except that the `pos` field is filled in; and the
+    offset it reports is the one at which the unbroken loop stopped, classified by `StopsAt`. -/
+theorem C17_break_beyond_end {σ : Type} (H : Hashes) (C : Checker σ) (c0 : σ) (script : Bytes) (flags : Nat)
+    (startAt : Option Nat) (brk : Nat) (stack alt : Option Stack) (hb : script.length ≤ brk) :
+    (coreEval H C c0 script flags startAt (some brk) stack alt).map (fun r => { r with pos := none })
+      = coreEval H C c0 script flags startAt none stack alt ∧
+    ∀ r, coreEval H C c0 script flags startAt (some brk) stack alt = .ok r →
+      ∃ p st, r.pos = some p ∧ StopsAt script flags (startAt.getD 0) p ∧
+        run H C (flags % 2 = 1) script none (script.length + 1) (startAt.getD 0)
+          { stack := stack.getD [], alt := alt.getD [], branch := [], checkIndex := 0, chk := c0 }
+          = .ok (st, p) := by
+  have hrun := run_break_beyond script (exF H C script flags) brk hb (script.length + 1) (startAt.getD 0)
+    { stack := stack.getD [], alt := alt.getD [], branch := [], checkIndex := 0, chk := c0 }
+  constructor
+  · rw [coreEval_eq, coreEval_eq, hrun]
+    cases runWith (exF H C script flags) script none (script.length + 1) (startAt.getD 0)
+      { stack := stack.getD [], alt := alt.getD [], branch := [], checkIndex := 0, chk := c0 } with
+    | ok x => rfl
+    | err e => rfl
+    | panic q => rfl
+  · intro r hr
+    rw [coreEval_eq, hrun] at hr
+    cases hn : runWith (exF H C script flags) script none (script.length + 1) (startAt.getD 0)
+      { stack := stack.getD [], alt := alt.getD [], branch := [], checkIndex := 0, chk := c0 } with
+    | ok x =>
+      obtain ⟨st1, p⟩ := x
+      rw [hn] at hr
+      simp only [resOf, Outcome.ok.injEq] at hr
+      subst hr
+      refine ⟨p, st1, rfl, ?_, hn⟩
+      obtain ⟨hs, _⟩ := run_ok_stop script _ _ _ _ _ _ _ hn
+      have hreach := stop_reaches _ script _ _ _ _ _ _ hs
+      rcases stop_class _ script _ _ _ _ _ _ hs with ⟨a, b⟩ | ⟨a, b⟩ | ⟨a, b, c⟩ | ⟨a, b, c, s, d⟩
+      · exact .inl ⟨a, b⟩
+      · exact .inr (.inl ⟨a, b⟩)
+      · simp [brkHit] at c
+      · obtain ⟨_, h2, h3⟩ := exec_stop H C _ script _ _ _ _ d
+        have h4 := decodeOp_return _ h2
+        refine .inr (.inr ⟨a, b, hreach, ?_, by simpa using h3⟩)
+        exact UInt8.toNat_inj.mp h4
+    | err e => rw [hn] at hr; simp [resOf] at hr
+    | panic q => rw [hn] at hr; simp [resOf] at hr
+
+/-! ### 2. the offset a segment reports -/
+
+/-- **reported offset.**  When `core_eval` with break offset `b` returns `ok`, it reports an offset
+    `p` that is an instruction boundary reached from the start offset (`Reaches`), and
+    * either there was nothing to run (`start ≥ length`, `p = start`),
+    * or the script ended first (`p = length`),
+    * or the break fired: `p` is inside the script and `p ≥ b`,
+    * or an OP_RETURN under genesis rules at `p < b` ended the run first;
+    and in every case each opcode executed before `p` lies below `b` — so when the break fires, `p` is
+    the requested boundary rounded up to the next instruction boundary on the execution path. -/
+theorem C17_reported_offset {σ : Type} (H : Hashes) (C : Checker σ) (c0 : σ) (script : Bytes) (flags : Nat)
+    (startAt : Option Nat) (b : Nat) (stack alt : Option Stack) (r : EvalResult σ)
+    (h : coreEval H C c0 script flags startAt (some b) stack alt = .ok r) :
+    ∃ p, r.pos = some p ∧ Reaches script (startAt.getD 0) p ∧
+      ((script.length ≤ startAt.getD 0 ∧ p = startAt.getD 0) ∨
+       (startAt.getD 0 < script.length ∧ p = script.length) ∨
+       (p < script.length ∧ b ≤ p) ∨
+       (p < script.length ∧ p < b ∧ script.getD p 0 = 0x6a ∧ flags % 2 ≠ 1)) ∧
+      ∀ q, Executes (exec H C (flags % 2 = 1) script) script (startAt.getD 0)
+            { stack := stack.getD [], alt := alt.getD [], branch := [], checkIndex := 0, chk := c0 } q →
+          q < p → q < b := by
+  obtain ⟨st1, p, hs, _, rfl⟩ := coreEval_ok H C script flags c0 startAt (some b) stack alt r h
+  refine ⟨p, rfl, stop_reaches _ script _ _ _ _ _ _ hs, ?_, ?_⟩
+  · rcases stop_class _ script _ _ _ _ _ _ hs with ⟨a, b'⟩ | ⟨a, b'⟩ | ⟨a, b', c⟩ | ⟨a, b', c, s, d⟩
+    · exact .inl ⟨a, b'⟩
+    · exact .inr (.inl ⟨a, b'⟩)
+    · exact .inr (.inr (.inl ⟨b', by simpa [brkHit] using c⟩))
+    · obtain ⟨_, h2, h3⟩ := exec_stop H C _ script _ _ _ _ d
+      have h4 := decodeOp_return _ h2
+      exact .inr (.inr (.inr ⟨b', by simpa [brkHit] using c, UInt8.toNat_inj.mp h4, by simpa using h3⟩))
+  · intro q hq hlt
+    have := stop_minimal _ script _ _ _ _ _ _ hs q hq hlt
+    simpa [brkHit] using this
+
+/-- the offsets reported by a successful segmented run: one per requested break, in order, never
+    decreasing (each segment starts where the previous one stopped) -/
+theorem C17_reported_list {σ : Type} (H : Hashes) (C : Checker σ) (c0 : σ) (script : Bytes) (flags : Nat)
+    (brks : List Nat) (r : EvalResult σ) (reported : List Nat)
+    (h : stepped H C c0 script flags brks = .ok (r, reported)) :
+    reported.length = brks.length ∧ reported.Pairwise (· ≤ ·) :=
+  stepped_reported H C script flags c0 brks r reported h
+
+/-! ### 3. split = single run -/
+
+/-- the unqualified statement: whatever a successful segmented run returns, the single run returns.
+    It is FALSE of the current interface (`C17_split_eq_single_false`): `check_index` is not carried. -/
+def C17_split_eq_single : Prop :=
+  ∀ (σ : Type) (H : Hashes) (C : Checker σ) (c0 : σ) (script : Bytes) (flags : Nat) (brks : List Nat)
+    (r : EvalResult σ) (reported : List Nat),
+    stepped H C c0 script flags brks = .ok (r, reported) →
+    ∃ r', coreEval H C c0 script flags none none none none = .ok r' ∧
+      r'.stack = r.stack ∧ r'.alt = r.alt ∧ r'.chk = r.chk
+
+/-- **split = single run (forward), any number of segments.**  If the checker ignores its script
+    argument and the segmented run — any list of break offsets, each segment starting at the offset the
+    previous one reported and carrying both stacks and the checker — succeeds with result `r`, then
+    the single run succeeds with exactly the same result: same main stack, same alternate stack, same
+    checker state (and `pos = none` on both sides).  No hypothesis about where the breaks fall is
+    needed: a segmented run that succeeds had all its breaks outside conditional blocks
+    (`C17_ok_breaks_depth_zero`). -/
+theorem C17_split_eq_single_partial {σ : Type} (H : Hashes) (C : Checker σ) (hC : Checker.IgnoresScript C)
+    (c0 : σ) (script : Bytes) (flags : Nat) (brks : List Nat) (r : EvalResult σ) (reported : List Nat)
+    (h : stepped H C c0 script flags brks = .ok (r, reported)) :
+    coreEval H C c0 script flags none none none none = .ok r := by
+  rw [coreEval_single]
+  exact (chain H C script flags hC brks (initSeg c0)).1 r reported h
+
+/-- some break of the segmented run fires while a conditional block is open (in the machine: the
+    loop of that segment is left at an offset `p ≥ b` inside the script in a state whose conditional
+    stack is not empty) -/
+def OpenConditionalAtBreak {σ : Type} (H : Hashes) (C : Checker σ) (c0 : σ) (script : Bytes) (flags : Nat)
+    (brks : List Nat) : Prop :=
+  OpenSomewhere H C script flags (initSeg c0) brks
+
+/-- every break that fires, fires at conditional depth zero on the execution path -/
+def DepthZeroBreaks {σ : Type} (H : Hashes) (C : Checker σ) (c0 : σ) (script : Bytes) (flags : Nat)
+    (brks : List Nat) : Prop :=
+  ¬ OpenConditionalAtBreak H C c0 script flags brks
+
+/-- a successful segmented run had all its breaks at depth zero -/
+theorem C17_ok_breaks_depth_zero {σ : Type} (H : Hashes) (C : Checker σ) (c0 : σ) (script : Bytes)
+    (flags : Nat) (brks : List Nat) (x : EvalResult σ × List Nat)
+    (h : stepped H C c0 script flags brks = .ok x) : DepthZeroBreaks H C c0 script flags brks :=
+  not_open_of_ok H C script flags brks (initSeg c0) x h
+
+/-- **converse, errors.**  If the segmented run fails with error `e`, then either the single run fails
+    with the same error, or a break fired inside an open conditional and `e` is the "ENDIF missing"
+    script error.  A panic of the segmented run is a panic of the single run. -/
+theorem C17_split_failure {σ : Type} (H : Hashes) (C : Checker σ) (hC : Checker.IgnoresScript C)
+    (c0 : σ) (script : Bytes) (flags : Nat) (brks : List Nat) :
+    (∀ e, stepped H C c0 script flags brks = .err e →
+      coreEval H C c0 script flags none none none none = .err e ∨
+      (OpenConditionalAtBreak H C c0 script flags brks ∧ e = "ScriptError")) ∧
+    (∀ q, stepped H C c0 script flags brks = .panic q →
+      coreEval H C c0 script flags none none none none = .panic q) := by
+  rw [coreEval_single]
+  exact (chain H C script flags hC brks (initSeg c0)).2
+
+/-- **split = single run, both directions.**  With a checker that ignores its script argument and
+    breaks that fire at conditional depth zero, the segmented run and the single run have the same
+    outcome in every case: the same result, the same error, or the same panic. -/
+theorem C17_split_eq_single_depth_zero {σ : Type} (H : Hashes) (C : Checker σ)
+    (hC : Checker.IgnoresScript C) (c0 : σ) (script : Bytes) (flags : Nat) (brks : List Nat)
+    (hd : DepthZeroBreaks H C c0 script flags brks) :
+    (stepped H C c0 script flags brks).map (·.1) = coreEval H C c0 script flags none none none none := by
+  obtain ⟨h1, h2, h3⟩ := chain H C script flags hC brks (initSeg c0)
+  rw [coreEval_single]
+  rw [stepped_eq] at *
+  cases hs : steppedFrom H C script flags (initSeg c0) brks with
+  | ok x => obtain ⟨r, rep⟩ := x; exact (h1 r rep hs).symm
+  | err e =>
+    rcases h2 e hs with h | ⟨h, _⟩
+    · exact h.symm
+    · exact absurd h hd
+  | panic q => exact (h3 q hs).symm
+
+/-- in particular: if the single run succeeds and the breaks fire at depth zero, the segmented run
+    succeeds with the same stacks and checker state -/
+theorem C17_single_ok_split_ok {σ : Type} (H : Hashes) (C : Checker σ) (hC : Checker.IgnoresScript C)
+    (c0 : σ) (script : Bytes) (flags : Nat) (brks : List Nat)
+    (hd : DepthZeroBreaks H C c0 script flags brks) (r : EvalResult σ)
+    (h : coreEval H C c0 script flags none none none none = .ok r) :
+    ∃ reported, stepped H C c0 script flags brks = .ok (r, reported) := by
+  have := C17_split_eq_single_depth_zero H C hC c0 script flags brks hd
+  rw [h] at this
+  cases hs : stepped H C c0 script flags brks with
+  | ok x =>
+    obtain ⟨r', rep⟩ := x
+    rw [hs] at this
+    simp only [Outcome.map, Outcome.ok.injEq] at this
+    exact ⟨rep, by rw [this]⟩
+  | err e => rw [hs] at this; simp [Outcome.map] at this
+  | panic q => rw [hs] at this; simp [Outcome.map] at this
+
+/-- no OP_CODESEPARATOR has been executed when a break fires (each segment leaves its loop with
+    `check_index = 0`, the value the next segment starts with) -/
+def NoSeparatorBeforeBreak {σ : Type} (H : Hashes) (C : Checker σ) (c0 : σ) (script : Bytes) (flags : Nat)
+    (brks : List Nat) : Prop :=
+  SeparatorFree H C script flags (initSeg c0) brks
+
+/-- **split = single run for ANY checker** (also one that inspects the script it is handed, like the
+    real `TransactionChecker`), provided no separator was executed before a break: then nothing is
+    lost at the interface. -/
+theorem C17_split_eq_single_no_separator {σ : Type} (H : Hashes) (C : Checker σ) (c0 : σ) (script : Bytes)
+    (flags : Nat) (brks : List Nat) (hs : NoSeparatorBeforeBreak H C c0 script flags brks)
+    (r : EvalResult σ) (reported : List Nat)
+    (h : stepped H C c0 script flags brks = .ok (r, reported)) :
+    coreEval H C c0 script flags none none none none = .ok r := by
+  rw [coreEval_single]
+  exact (chain_sepfree H C script flags brks (initSeg c0) hs).1 r reported h
+
+/-! ### 4. verdicts -/
+
+/-- the verdict `eval` draws from a result: the top item of the main stack decodes to true -/
+def verdict {σ : Type} (r : EvalResult σ) : Outcome Unit :=
+  match r.stack with
+  | [] => scriptErr
+  | t :: _ => if decodeBool t then .ok () else scriptErr
+
+/-- **verdict preserved.**  `eval` on the whole script gives the verdict drawn from the result of any
+    successful segmented run ... -/
+theorem C17_verdict_preserved {σ : Type} (H : Hashes) (C : Checker σ) (hC : Checker.IgnoresScript C)
+    (c0 : σ) (script : Bytes) (flags : Nat) (brks : List Nat) (r : EvalResult σ) (reported : List Nat)
+    (h : stepped H C c0 script flags brks = .ok (r, reported)) :
+    eval H C c0 script flags = verdict r := by
+  unfold eval
+  rw [C17_split_eq_single_partial H C hC c0 script flags brks r reported h]
+  rfl
+
+/-- ... and with breaks at depth zero the two verdicts agree in every case, failures included -/
+theorem C17_verdict_preserved_depth_zero {σ : Type} (H : Hashes) (C : Checker σ)
+    (hC : Checker.IgnoresScript C) (c0 : σ) (script : Bytes) (flags : Nat) (brks : List Nat)
+    (hd : DepthZeroBreaks H C c0 script flags brks) :
+    eval H C c0 script flags = ((stepped H C c0 script flags brks).map (·.1)).bind verdict := by
+  rw [C17_split_eq_single_depth_zero H C hC c0 script flags brks hd]
+  unfold eval
+  cases coreEval H C c0 script flags none none none none <;> rfl
+
+/-! ### 5. the excluded case really differs -/
 
 def noHashes : Hashes := ⟨id, id, id, id, id⟩
 
@@ -25,5 +273,99 @@ theorem C17_codesep_not_carried :
     (stepped noHashes recorder [] [0x51, 0x51, 0xab, 0x61, 0xac] 0 [4]).map (·.1.chk)
       = .ok [[0x51, 0x51, 0xab, 0x61, 0xac]] := by
   constructor <;> decide
+
+/-- hence the unqualified statement is false -/
+theorem C17_split_eq_single_false : ¬ C17_split_eq_single := by
+  intro h
+  obtain ⟨h1, h2⟩ := C17_codesep_not_carried
+  cases hs : stepped noHashes recorder [] [0x51, 0x51, 0xab, 0x61, 0xac] 0 [4] with
+  | ok x =>
+    obtain ⟨r, rep⟩ := x
+    obtain ⟨r', e1, _, _, e4⟩ := h _ noHashes recorder [] [0x51, 0x51, 0xab, 0x61, 0xac] 0 [4] r rep hs
+    rw [hs] at h2
+    rw [e1] at h1
+    simp only [Outcome.map, Outcome.ok.injEq] at h1 h2
+    rw [e4, h2] at h1
+    revert h1
+    decide
+  | err e => rw [hs] at h2; simp [Outcome.map] at h2
+  | panic q => rw [hs] at h2; simp [Outcome.map] at h2
+
+/-- a checker whose ANSWER depends on the script it is handed -/
+def lengthTwo : Checker Unit :=
+  { checkSig := fun c _ _ scr => (.ok (scr.length == 2), c)
+    checkLocktime := fun _ _ => .ok true
+    checkSequence := fun _ _ => .ok true }
+
+/-- with such a checker the final stacks differ too: the same script and split leave `true` on the
+    stack in a single run and `false` in the segmented run -/
+theorem C17_codesep_changes_stack :
+    (coreEval noHashes lengthTwo () [0x51, 0x51, 0xab, 0x61, 0xac] 0 none none none none).map (·.stack)
+      = .ok [[1]] ∧
+    (stepped noHashes lengthTwo () [0x51, 0x51, 0xab, 0x61, 0xac] 0 [4]).map (·.1.stack)
+      = .ok [[]] := by
+  constructor <;> decide
+
+/-! ### the hypotheses are satisfiable -/
+
+/-- a checker that ignores its script argument (its answer depends on the signature only; it counts
+    its calls) -/
+def sigOnly : Checker Nat :=
+  { checkSig := fun n sig _ _ => (.ok (sig == [1]), n + 1)
+    checkLocktime := fun _ _ => .ok true
+    checkSequence := fun _ _ => .ok true }
+
+example : Checker.IgnoresScript sigOnly := fun _ _ _ _ _ => rfl
+
+/-- `OP_1 OP_IF OP_2 OP_ENDIF <01> <02> OP_CODESEPARATOR OP_CHECKSIG OP_VERIFY OP_2 OP_EQUAL` cut into four segments at
+    depth-zero boundaries (one request inside the push at 4..5, rounded up to 6; one beyond the
+    end): the segmented run succeeds, reports `[1, 6, 9, 13]`, and leaves the stack of the single run -/
+example :
+    (stepped noHashes sigOnly 0 [0x51, 0x63, 0x52, 0x68, 0x01, 0x01, 0x01, 0x02, 0xab, 0xac, 0x69, 0x52, 0x87] 0
+        [1, 5, 9, 40]).map (fun x => (x.1.stack, x.1.alt, x.1.chk, x.2))
+      = .ok ([[1]], [], 1, [1, 6, 9, 13]) ∧
+    (coreEval noHashes sigOnly 0 [0x51, 0x63, 0x52, 0x68, 0x01, 0x01, 0x01, 0x02, 0xab, 0xac, 0x69, 0x52, 0x87] 0
+        none none none none).map (fun r => (r.stack, r.alt, r.chk))
+      = .ok ([[1]], [], 1) := by
+  constructor <;> decide
+
+/-- the depth-zero hypothesis holds for that split (it succeeds) ... -/
+example : DepthZeroBreaks noHashes sigOnly 0
+    [0x51, 0x63, 0x52, 0x68, 0x01, 0x01, 0x01, 0x02, 0xab, 0xac, 0x69, 0x52, 0x87] 0 [1, 5, 9, 40] := by
+  cases h : stepped noHashes sigOnly 0
+      [0x51, 0x63, 0x52, 0x68, 0x01, 0x01, 0x01, 0x02, 0xab, 0xac, 0x69, 0x52, 0x87] 0 [1, 5, 9, 40] with
+  | ok x => exact C17_ok_breaks_depth_zero _ _ _ _ _ _ x h
+  | err e =>
+    have : (stepped noHashes sigOnly 0
+      [0x51, 0x63, 0x52, 0x68, 0x01, 0x01, 0x01, 0x02, 0xab, 0xac, 0x69, 0x52, 0x87] 0 [1, 5, 9, 40]).isOk = true := by
+      decide
+    rw [h] at this; simp [Outcome.isOk] at this
+  | panic q =>
+    have : (stepped noHashes sigOnly 0
+      [0x51, 0x63, 0x52, 0x68, 0x01, 0x01, 0x01, 0x02, 0xab, 0xac, 0x69, 0x52, 0x87] 0 [1, 5, 9, 40]).isOk = true := by
+      decide
+    rw [h] at this; simp [Outcome.isOk] at this
+
+/-- ... and it is needed: `OP_1 OP_IF OP_1 OP_ENDIF` evaluates to true in one run, but a break at
+    offset 2 fires inside the open IF and `core_eval` answers "ENDIF missing" -/
+example :
+    (coreEval noHashes sigOnly 0 [0x51, 0x63, 0x51, 0x68] 0 none none none none).map (·.stack) = .ok [[1]] ∧
+    (stepped noHashes sigOnly 0 [0x51, 0x63, 0x51, 0x68] 0 [2]).map (·.1.stack) = .err "ScriptError" ∧
+    OpenConditionalAtBreak noHashes sigOnly 0 [0x51, 0x63, 0x51, 0x68] 0 [2] := by
+  refine ⟨by decide, by decide, ?_⟩
+  exact .inl ⟨⟨[], [], [true], 0, 0⟩, 2, rfl, by decide, by decide, by simp⟩
+
+/-- a split before any separator is executed satisfies `NoSeparatorBeforeBreak` even for the
+    recording checker, and the checker then sees the same script in both runs -/
+example :
+    NoSeparatorBeforeBreak noHashes recorder [] [0x51, 0x51, 0xab, 0x61, 0xac] 0 [2] ∧
+    (stepped noHashes recorder [] [0x51, 0x51, 0xab, 0x61, 0xac] 0 [2]).map (·.1.chk) = .ok [[0x61, 0xac]] := by
+  refine ⟨⟨?_, fun _ _ => trivial⟩, by decide⟩
+  intro st1 p h
+  have e : segStop noHashes recorder [0x51, 0x51, 0xab, 0x61, 0xac] 0 (initSeg []) 2
+      = .ok (⟨[[1], [1]], [], [], 0, []⟩, 2) := rfl
+  rw [e] at h
+  simp only [Outcome.ok.injEq, Prod.mk.injEq] at h
+  rw [← h.1]
 
 end CG.Props.C17
